@@ -221,8 +221,24 @@ impl Game {
         };
 
         if en_passant != "-" {
+            // The square a pawn of the side that just moved has passed over: on that side's
+            // third rank, empty like the pawn's origin behind it, the pawn right in front of it
+            let (rank, mover, origin, passed, landed) = match current_player {
+                Player::White => (b'6', Player::Black, 6, 5, 4),
+                Player::Black => (b'3', Player::White, 1, 2, 3),
+            };
             match en_passant.as_bytes() {
-                [col @ b'a'..=b'h', b'3' | b'6'] => state.set_en_passant((col - b'a') as i8),
+                [col @ b'a'..=b'h', row] if *row == rank => {
+                    let col = (col - b'a') as i8;
+                    let at = |row: i8| board[Position::new_assert(row, col).as_usize()];
+                    let pawn_landed = at(landed).is_some_and(|piece| {
+                        piece.piece_type == PieceType::Pawn && piece.owner == mover
+                    });
+                    if at(origin).is_some() || at(passed).is_some() || !pawn_landed {
+                        bail!("En passant square without a double pawn step behind it");
+                    }
+                    state.set_en_passant(col)
+                }
                 _ => bail!("Invalid en passant square"),
             }
         }
